@@ -24,7 +24,8 @@ def check(run):
     # build everything up front, in parallel
     specs = [("sieve", core.GXX14, [], ""), ("families", core.GXX14, [], ""),
              ("modcube", core.GXX14, [], ""), ("modcube", core.CLANG14, L.SAN, "_san"),
-             ("wrapsq", core.GXX14, [], ""), ("single", core.GXX14, [], "")]
+             ("wrapsq", core.GXX14, [], ""), ("single", core.GXX14, [], ""),
+             ("families", core.CLANG14, L.UBF, "_ub"), ("sieve", core.CLANG14, L.UBF, "_ub")]
     exes = dict(zip([s[0] + s[3] for s in specs],
                     core.pmap(lambda s: L.must_build(wd, s[0], s[1], s[2], s[3]), specs)))
     col.single = exes["single"]
@@ -47,7 +48,20 @@ def check(run):
 
     def ct_thread():
         try:
-            ct_box["r"] = L.explore_ct(run, tier)
+            ct_box["r"] = L.explore_ct(run, tier, ct_box.get("extra", ()))
+        except core.InfraError as e:
+            # The all-headers PCH / preamble does not build.  If that is because mag<N>() itself has lost
+            # numbers (a library static_assert fires), the fallback reports those as violations.
+            try:
+                fb = L.explore_ct_nopch(run, tier, str(e))
+            except BaseException as e2:
+                fb, e = None, e2
+            if fb is None:
+                ct_box["e"] = e
+            else:
+                ct_box["r"] = fb
+                if not run.violations:
+                    ct_box["e"] = e
         except BaseException as e:      # re-raised in the main thread
             ct_box["e"] = e
 
@@ -59,14 +73,22 @@ def check(run):
     take(L.explore_wrapsq(run, col, exes["wrapsq"], 1 << (26 if quick else 30), "a"))
     fam1 = L.explore_families(run, col, exes["families"], tier, False, tmo)
     take(L.explore_modcube(run, col, exes["modcube"], exes["modcube_san"], tier))
-    take(L.explore_replica(run, tier))
+    take(L.explore_replica(run, tier, col, exes["modcube"], exes["modcube_san"]))
     sw = L.SieveSweep(run, col, exes["sieve"], 26 if quick else 32)
     first, second = L.sieve_plan(sw.limit_log2)
     sw.sweep(first, max(30, left() * (0.45 if quick else 0.5)), tmo)
     gate = not run.violations
     if gate:
+        # adversarial inputs for the constant-evaluation records: the largest / smallest pseudoprimes the
+        # sieve's own slow tests found, and the is_perfect_square wrap collisions
+        psp = L.merge(sw.res).get("P", [])
+        sp2 = sorted(int(x) for p in psp for x in p["spsp2"])
+        slp = sorted(int(x) for p in psp for x in p["slpsp"])
+        ct_box["extra"] = (sp2[-3:] + slp[:2] + slp[-3:] +
+                           [int(c["n"]) for c in cov.get("wrap_collision_list", [])[:6]])
         th.start()
         take(L.explore_families(run, col, exes["families"], tier, True, tmo))
+        take(L.explore_ub(run, col, exes["families_ub"], exes["sieve_ub"], tier, tmo))
         colls = [c["n"] for c in cov.get("wrap_collision_list", [])]
         if colls:
             r = L.run_bin(exes["single"], ["prime"] + colls, timeout=tmo)
@@ -108,12 +130,25 @@ def check(run):
                  "(returned factor must divide n and be prime); (2) structured 64-bit families built by "
                  "independent code (p^2, p*q around 2^16/2^31/2^32, all Carmichael (6k+1)(12k+1)(18k+1) < "
                  "2^64, strong base-2 / strong Lucas pseudoprimes found by the harness's own slow tests, "
-                 "nearest primes/composites/trial-division-resistant composites around 2^33..2^64) judged by "
-                 "12-base deterministic Miller-Rabin; (3) add/sub/mul/half/pow_mod on an operand cube vs "
-                 "unsigned __int128, also under clang's unsigned-overflow sanitizer with per-call "
-                 "attribution; (4) unmodified mod.hh over a trapping W-bit word, all a,b<n<2^W; (6) complete "
-                 "2-adic solution sets of c^2 == n (mod 2^64) per Newton iterate of is_perfect_square; "
-                 "(5) static mag<a>()*mag<b>() == mag<a*b>(), canonical read-out and type identity. "
+                 "nearest primes/composites/trial-division-resistant composites around 2^27..2^64, and the "
+                 "base-2 strong pseudoprimes below 2^32 enumerated by structure: n = p*(1+j*ord_p(2)) for "
+                 "every prime P0 <= p < 2^16 and p*(r(p-1)+1), r = 2..64, each confirmed by the harness's "
+                 "own sprp) judged by 12-base deterministic Miller-Rabin; the families and two exhaustive "
+                 "windows once more under clang -fsanitize=undefined with per-call attribution of reports; "
+                 "(3) add/sub/mul/half/pow_mod on an operand cube and on an enumerated operand lattice "
+                 "(fractions floor(n*i/32)+-1, k*2^j, and b = q*floor(n/a)+r around mul_mod's own chunk "
+                 "boundaries; moduli up to 2^64-1) vs unsigned __int128, also under clang's "
+                 "unsigned-overflow sanitizer with per-call attribution; (4) unmodified mod.hh over a "
+                 "trapping W-bit word, all a,b<n<2^W, every divergence re-run scaled to 64 bits as a real "
+                 "case; (6) complete 2-adic solution sets of c^2 == n (mod 2^64) per Newton iterate of "
+                 "is_perfect_square; (5) static mag<a>()*mag<b>() == mag<a*b>(), canonical read-out, type "
+                 "identity, std::is_same against the hand-spelled au::Magnitude<au::Prime<p>, "
+                 "au::Pow<au::Prime<q>, e>, ...>, and is_prime / find_prime_factor forced into constant "
+                 "evaluation on adversarial 64-bit inputs constructed by big-int searches. Every call of the "
+                 "code under test runs under a CPU-time watchdog: a call that does not return within 1-2 CPU "
+                 "seconds, or traps, is a violation (kinds *-hang / *-trap). A compile-time record that does "
+                 "not compile is a violation (mag-hard-error / ct-hard-error) unless the diagnostic is an "
+                 "exhausted constexpr/template budget. "
                  "distinct_nontrivial counts sub-exploration cells (sieve chunks, families, modulus "
                  "partitions, wrap collisions, compile-time numbers) in which both outcomes of the checked "
                  "predicate (prime/composite, overflow path/fit path, equal/unequal) were observed."),
@@ -126,7 +161,11 @@ def check(run):
         "samples": (cov.get("family_samples", [])[:8] +
                     [{"wrap_collision": c} for c in cov.get("wrap_collision_list", [])[:4]]) or ["none"],
         "dont_care": ["pow_mod with n = 1 (no residue class representative demanded)",
-                      "mag<N>() that does not compile within the raised constexpr budgets",
+                      "mag<N>() / constant-evaluated is_prime that exhausts the raised constexpr or template "
+                      "budgets (diagnostic names the budget; counted in ct_budget_dont_care); any other "
+                      "compile failure on n < 2^64 is a violation",
+                      "a direct call of the internal helper is_perfect_square that hangs for an n that is_prime "
+                      "itself handles (recorded, the same n is then judged through is_prime)",
                       "operands violating the documented preconditions a < n, b < n, n odd for half_mod_odd"],
     })
     run.cov.update(cov)
@@ -134,7 +173,10 @@ def check(run):
         "g++ 12 / clang 14 on x86-64 execute the compiled harness (incl. unsigned __int128) faithfully",
         "bases 2..37 make Miller-Rabin deterministic below 3.3e24 (Sorenson-Webster), used as the 64-bit oracle",
         "the constexpr helpers behave identically when called at run time and in constant evaluation "
-        "(the compile-time grid cross-checks this on mag<N>())",
+        "(cross-checked on mag<N>() and on the adversarial is_prime / find_prime_factor template-argument "
+        "records of the compile-time grid, not beyond)",
+        "no correct call of is_prime / find_prime_factor / a modular helper needs a full CPU second "
+        "(measured: <= 40 ms for Pollard rho on a 64-bit semiprime), so the watchdog cannot fire on a correct tree",
         "a finding is attributed to cause=sqwrap only when an independent 128-bit replay of the Newton "
         "iteration shows iterate*iterate == n modulo 2^64 but not exactly",
     ]
